@@ -3,6 +3,8 @@
 package c08
 
 import (
+	"regexp"
+	"strconv"
 	"strings"
 	"testing"
 
@@ -17,7 +19,7 @@ type Case struct {
 	GenFeat map[string]int `json:"genfeat,omitempty"`
 }
 
-var profile = prog.Profile{Control: true, HostChan: true, MaxDepth: 5, MaxStmts: 4}
+var profile = prog.Profile{Control: true, HostChan: true, CtlVals: true, MaxDepth: 5, MaxStmts: 4}
 
 func gen(t *rapid.T) Case {
 	p, f := prog.Generate(t, profile)
@@ -27,7 +29,7 @@ func gen(t *rapid.T) Case {
 // the same control-flow programs among statements that raise, catch and defer: a return, break or
 // continue must do what its syntax says also when deferred calls are registered (at top level or in
 // the function being left) and when errors were raised and caught on the way
-var profileErrors = prog.Profile{Control: true, Errors: true, HostChan: true, MaxDepth: 5, MaxStmts: 4}
+var profileErrors = prog.Profile{Control: true, Errors: true, HostChan: true, CtlVals: true, MaxDepth: 5, MaxStmts: 4}
 
 func genErrors(t *rapid.T) Case {
 	p, f := prog.Generate(t, profileErrors)
@@ -47,6 +49,12 @@ func oracle(c Case, o *h.Obs) *h.Fail {
 	}
 	for _, k := range []string{"loop_cfor_without_condition", "loop_cfor_without_init", "loop_cfor_without_post", "loop_cfor_constant_condition_without_post", "loop_cfor_without_condition_and_post", "loop_cfor_condition_only", "loop_cfor_condition_only_false_at_start", "loop_cfor_post_only", "loop_cfor_empty_header", "defer", "try", "switch_subject_nil", "switch_subject_str", "loop_forin_map_keys_printing_alike", "stray_break_or_continue_in_callee"} {
 		if c.GenFeat[k] > 0 {
+			o.Class("gen_" + k)
+		}
+	}
+	// the seventh-round input classes (internal/prog/gen_ctlvals.go): every counter of the two patterns
+	for k, n := range c.GenFeat {
+		if n > 0 && (strings.HasPrefix(k, "forin_map_") || strings.HasPrefix(k, "return_of_slot_") || strings.HasPrefix(k, "returned_slot_")) {
 			o.Class("gen_" + k)
 		}
 	}
@@ -72,7 +80,11 @@ func oracle(c Case, o *h.Obs) *h.Fail {
 		}
 	}
 	if !v.OK {
-		f := h.Failf("C08|"+v.Clause, "program:\n%s\n%s", v.Src, v.Detail)
+		sig := "C08|" + v.Clause
+		if site := ctlValsSite(c.Prog, v.Detail); site != "" {
+			sig += "|" + site
+		}
+		f := h.Failf(sig, "program:\n%s\n%s", v.Src, v.Detail)
 		f.NoShrink = v.Clause == "no-termination"
 		return f
 	}
@@ -93,5 +105,72 @@ func TestC08(t *testing.T) {
 	h.Run(c, "control", c.N(12000, 120000), gen, oracle)
 	c.Rule("control_errors: the same generator with throw / runtime errors / try-catch-finally / defer statements switched on (profile 'control+errors'): the top-level program and the functions register deferred calls before they return, loops are left by break/continue while errors are raised and caught; same oracle, same non-triviality rule")
 	h.Run(c, "control_errors", c.N(8000, 80000), genErrors, oracle)
+	c.Rule("parallel: 2-3 judged programs (tight loops of 300-1200 passes over if/else-if/else, for cond, ternary, !, &&, ||, continue, switch with condition values of every specified truthiness class, non-empty strings above all) run at the same time on goroutines and in environments of their own next to 1-3 never-judged disturber scripts that test every kind of value (also the strings whose truth value is left open); each judged program must count the branches the reference interpreter counts; non-trivial = a judged program tests a string")
+	h.Run(c, "parallel", c.N(60, 600), genPar, oraclePar)
 	h.Run(c, "trysignal", 1, genTrySignal, oracleTrySignal)
+}
+
+var probeInDetail = regexp.MustCompile(`(?:model|anko) "p i:(-?[0-9]+)`)
+
+// ctlValsSite names the seventh-round pattern (internal/prog/gen_ctlvals.go) the first differing
+// probe belongs to, for the signature only: "forin-over-map-entry-classes" when the probe sits in a
+// for-in loop over one of the pattern's maps (or reports its counter / its function's result),
+// "return-of-slot-holding-slice-or-map" when it sits in, or reports the result of, one of the pattern's
+// functions; "" for every other probe.
+func ctlValsSite(stmts []*prog.N, detail string) string {
+	m := probeInDetail.FindStringSubmatch(detail)
+	if m == nil {
+		return ""
+	}
+	id, _ := strconv.ParseInt(m[1], 10, 64)
+	site := ""
+	var walk func(n *prog.N, ctx string)
+	named := func(n *prog.N) string {
+		// the names the two patterns use for their maps, counters and functions
+		found := ""
+		prog.Walk([]*prog.N{n}, func(k *prog.N) {
+			nm := k.S
+			if k.K != "id" && k.K != "call" {
+				return
+			}
+			switch {
+			case strings.HasPrefix(nm, "rh") || strings.HasPrefix(nm, "rx") || nm == "hbox" || nm == "ta":
+				found = "return-of-slot-holding-slice-or-map"
+			case strings.HasPrefix(nm, "em") || strings.HasPrefix(nm, "en") || strings.HasPrefix(nm, "fu") || nm == "ek" || nm == "ev":
+				if found == "" {
+					found = "forin-over-map-entry-classes"
+				}
+			}
+		})
+		return found
+	}
+	walk = func(n *prog.N, ctx string) {
+		if n == nil {
+			return
+		}
+		switch {
+		case n.K == "forin" && len(n.Ps) > 0 && n.Ps[0] == "ek":
+			ctx = "forin-over-map-entry-classes"
+		case n.K == "fn" && strings.HasPrefix(n.S, "rh"):
+			ctx = "return-of-slot-holding-slice-or-map"
+		}
+		if n.K == "p" && n.I == id && site == "" {
+			site = ctx
+			if s := named(n); s != "" {
+				site = s
+			}
+		}
+		for _, k := range n.Ns {
+			walk(k, ctx)
+		}
+		for _, b := range n.Ss {
+			for _, k := range b {
+				walk(k, ctx)
+			}
+		}
+	}
+	for _, s := range stmts {
+		walk(s, "")
+	}
+	return site
 }
